@@ -10,6 +10,7 @@ NOPANIC_TAG = {
     "RELAY": "C04.nopanic",
     "BLD": "C04.nopanic",
     "WCH": "C16.total",
+    "FS": "C15.total",
     "INC": "C05.corrupt",
     "CFG": "C14.nopanic",
     "CLN": "C12.nopanic",
@@ -28,6 +29,8 @@ ASSUME = {
     "A-all": "A-all: iterator adapters and future combinators at the call sites — map/filter/collect, future::join / try_join_all, Result::map, and_then — behave as their names say (one result per element in order; fold of insert); the per-element closures are outlined and verified (R13); async_utils::both and ::all themselves are verified in the UTIL unit against futures-as-values (select yields either side first; buffer_unordered yields in any order)",
     "A-clap": "A-clap: clap's ArgMatches::is_present is an uninterpreted predicate of the flag name",
     "A-str": "A-str: str/Path/OsStr predicates (ends_with, starts_with, file_name, to_string_lossy, is_in_work_dir, matches_extensions) are uninterpreted functions; to_string_lossy is total",
+    "A-walkdir": "A-walkdir: walkdir yields every entry at or below the root (root included), parents before children, links not followed; filter_entry(p) skips an entry for which p is false together with everything below it; an entry's path is the root path followed by the names down to it; the root entry is named by the last normal component of the root path; items reported as errors carry no entry",
+    "A-adapters": "A-adapters (FS unit): Option::map/filter/is_some_and/is_none_or/unwrap_or and spawn_blocking(f).await are replaced at their site by their definition over the outlined closures; Iterator::any, filter().map().collect(), filter_entry().filter_map().collect() and join_all(..).flatten().collect() by stubs restating the chain's documented meaning in terms of the outlined closure's contract; every site text is pinned by its skeleton",
     "A-kani": "A-kani (bounded stand-in): async_std::path::Path is std::path::Path; anyhow!'s text is dropped; results hold within the stated bounds only",
     "A-notify": "A-notify: notify calls the handler for every event under a watched path that existed at watch() time",
     "A-yaml": "A-yaml: serde_yaml / clap parsing are not modelled; load_project is an arbitrary function returning Result<Project>",
@@ -66,6 +69,8 @@ PROPS = {
             "not_covered": ["not covered: project_dir.join(path) inside transform_input/_output (iterator closures; assumed by transform_target's contract)"]},
     "C14": {"units": ["CFG", "CLN"], "level": "proof", "assume": CFGA,
             "not_covered": ["not applicable within C14: totality and strictness of parsing (serde_yaml, derive attributes, regexes) - third-party parser code with no contract within reach; only the uniqueness / import-name / injectivity half is proved"]},
+    "C15": {"units": ["FS", "INC", "CLN", "WCH"], "level": "proof", "assume": ["A-std", "A-hash", "A-fs", "A-walkdir", "A-str", "A-adapters", "R1"],
+            "not_covered": ["not covered: byte-level UTF-8 decoding of names (to_string_lossy / to_str are assumed total functions), symlink loops, the order of the listing, notify itself (C16)"]},
     "C16": {"units": ["WCH"], "level": "proof", "assume": ["A-std", "A-chan", "A-notify", "A-str", "A-all"],
             "not_covered": ["not covered: notify itself, recursion into directories created later; the byte-level behaviour of the str predicates (bounded Kani harnesses in the KANI unit)"]},
     "C18": {"units": ["INC"], "level": "proof", "assume": INCA,
@@ -74,6 +79,15 @@ PROPS = {
             "not_covered": ["not covered: list_all_available_target_names (iterator chains over string maps); the body of TargetId::try_parse is covered only by the bounded Kani harness try_parse_spec (when it could be run: see the evidence)"]},
     "C20": {"units": ["ACT", "RELAY"], "level": "proof", "assume": ACTORS,
             "not_covered": ["not covered: the metamorphic comparison of two real invocations"]},
+}
+
+# assumed function of some unit -> the unit that verifies its body (and its closures) against a contract from which
+# every assumed contract of that function follows (INC/CLN/WCH/CFG only assume "is the function <uninterpreted>" of
+# its arguments and the tree; FS proves which function).  A changed text of such a function is then re-validated by
+# that unit's obligations instead of making the assuming unit undecided.
+VALIDATED_BY = {
+    "list_files_in_path": "FS", "list_files_in_paths": "FS", "list_files_in_resources": "FS",
+    "is_in_work_dir": "FS", "matches_extensions": "FS", "transform_extensions": "FS",
 }
 
 PLANNED = ["C%02d" % i for i in range(1, 21)]
